@@ -20,7 +20,12 @@ func Exported(s string) string {
 			return initialism
 		}
 	}
-	return strings.ToUpper(s[0:1]) + s[1:]
+	first, size := utf8.DecodeRuneInString(s)
+	if first == utf8.RuneError && size <= 1 {
+		// Invalid UTF-8: there is no first letter to upper-case.
+		return s
+	}
+	return string(unicode.ToUpper(first)) + s[size:]
 }
 
 func ReadFile(path string) (string, error) {
